@@ -1,8 +1,11 @@
 """C07 -- flex lines: order, no overlap, flexibility exhausted.
 T (Gen/FlexGen.v: compute_alignment_offset, apply_alignment_fallback, sum_axis_gaps) + proofs (Props/C07.v, over XQ) +
-K (whole-API: single-line flex containers of leaves, Model/FlexRun.v over F32, bit-exact) +
-search (vh c07 oracle: the two laws on unrounded layouts of random trees, incl. wrap and nested content)."""
+K1 (whole-API: single-line flex containers of leaves, Model/FlexRun.v over F32, bit-exact) +
+K2 (whole-API: multi-line containers of leaves, both axes: Model/FlexWrapRun.v = FlexContainer + FlexLines + FlexBase + Flex + Leaf) +
+search (vh c07 oracle: the two laws on unrounded layouts of random trees, incl. wrap and nested content; the line laws
+on the implementation's results of the K2 cases)."""
 import struct
+from fractions import Fraction
 from ..common import *
 from ..stages import *
 
@@ -121,6 +124,163 @@ def impl_violates(c, r):
     return None
 
 
+# ------------------------------------------------------------------------------------------------ K2: multi-line containers
+W_HEAD = 23
+W_ITEM = 41
+WRAPS = ['NoWrap', 'Wrap', 'WrapReverse']
+
+
+def wdecode(c):
+    opt = lambda h, v: fl(v) if h else None
+    d = {'dir': c[0], 'row': c[0] in (0, 2), 'reverse': c[0] >= 2, 'wrap': c[1], 'jc': c[2], 'ac': c[3], 'ai': c[4],
+         'main': fl(c[5]), 'cross': opt(c[6], c[7]), 'min_m': opt(c[8], c[9]), 'max_m': opt(c[10], c[11]),
+         'pb': [fl(x) for x in c[12:20]], 'gap_m': fl(c[20]), 'gap_c': fl(c[21]), 'n': c[22], 'items': []}
+    for i in range(c[22]):
+        it = c[W_HEAD + i * W_ITEM:W_HEAD + (i + 1) * W_ITEM]
+        d['items'].append({'basis': opt(it[0], it[1]), 'size_m': opt(it[2], it[3]), 'size_c': opt(it[4], it[5]),
+                           'min_m': opt(it[6], it[7]), 'max_m': opt(it[8], it[9]), 'min_c': opt(it[10], it[11]),
+                           'max_c': opt(it[12], it[13]), 'aspect': opt(it[14], it[15]), 'grow': fl(it[16]), 'shrink': fl(it[17]),
+                           'margin': [None if it[18 + 2 * k] else fl(it[19 + 2 * k]) for k in range(4)],
+                           'pb': [fl(x) for x in it[26:34]], 'overflow': it[34:36], 'content_box': it[36] == 1,
+                           'align': it[37], 'ctx': it[38]})
+    return d
+
+
+def wshape(c):
+    d = wdecode(c)
+    return '%s/%s/n=%d' % (DIRS[d['dir']], WRAPS[d['wrap']], d['n'])
+
+
+def _quarter(x):
+    return x is not None and abs(x) < 262144.0 and float(x * 4.0).is_integer()
+
+
+def impl_lines(c, r):
+    """Line membership read off the implementation's result alone: items whose margin box starts at the same cross
+    position are on the same line.  Only for containers where that is unambiguous: every item aligned to the start of its
+    line (align-items / align-self start), no auto cross margin, every item at least 1 high (so consecutive lines differ).
+    Returns a list of index lists or None."""
+    d = wdecode(c)
+    n = d['n']
+    if len(r) != 2 + 8 * n or n == 0:
+        return None
+    if d['wrap'] == 0:
+        return [list(range(n))]
+    for it in d['items']:
+        eff = d['ai'] if it['align'] < 0 else it['align']
+        if eff != 0 or it['margin'][2] is None or it['margin'][3] is None:
+            return None
+        if it['size_c'] is None or it['size_c'] < 1.0 or it['min_c'] is not None or it['max_c'] is not None or it['aspect'] is not None:
+            return None
+    base = [fl(r[2 + 8 * i + 1]) - fl(r[2 + 8 * i + 6]) for i in range(n)]
+    lines = [[0]]
+    for i in range(1, n):
+        if abs(base[i] - base[i - 1]) <= 1e-3:
+            lines[-1].append(i)
+        else:
+            lines.append([i])
+    return lines
+
+
+def impl_violates_wrap(c, r, stats=None):
+    """The line laws of the property on one implementation result of the K2 class (no model involved).
+    Returns a message or None."""
+    d = wdecode(c)
+    n = d['n']
+    if len(r) != 2 + 8 * n:
+        return 'implementation returned %d fields for %d children' % (len(r), n)
+    lines = impl_lines(c, r)
+    if lines is None:
+        return None
+    its = d['items']
+    loc = [fl(r[2 + 8 * i]) for i in range(n)]
+    loc_c = [fl(r[2 + 8 * i + 1]) for i in range(n)]
+    size = [fl(r[2 + 8 * i + 2]) for i in range(n)]
+    ms = [fl(r[2 + 8 * i + 4]) for i in range(n)]
+    me = [fl(r[2 + 8 * i + 5]) for i in range(n)]
+    mcs = [fl(r[2 + 8 * i + 6]) for i in range(n)]
+    tol = 1e-3
+    # partition into consecutive runs: a cross position, once left, does not come back; lines advance in one direction
+    if d['wrap'] != 0 and len(lines) > 1:
+        bases = [loc_c[l[0]] - mcs[l[0]] for l in lines]
+        for a, b2 in zip(bases, bases[1:]):
+            if d['wrap'] == 1 and not b2 > a + tol:
+                return 'lines are not stacked in document order on the cross axis (%.4f then %.4f)' % (a, b2)
+            if d['wrap'] == 2 and not b2 < a - tol:
+                return 'wrap-reverse: lines are not stacked in reverse document order on the cross axis (%.4f then %.4f)' % (a, b2)
+    # order / no overlap within each line (margins of the class are >= 0)
+    if all(m >= 0.0 for m in ms + me) and d['gap_m'] >= 0.0:
+        for l in lines:
+            for a, b2 in zip(l, l[1:]):
+                if d['reverse']:
+                    lo_end, hi_start = loc[b2] + size[b2] + me[b2], loc[a] - ms[a]
+                else:
+                    lo_end, hi_start = loc[a] + size[a] + me[a], loc[b2] - ms[b2]
+                if hi_start < lo_end - tol:
+                    return 'children %d and %d of one line: margin boxes overlap or are out of order on the main axis (%.4f < %.4f)' % (a, b2, hi_start, lo_end)
+    # fit / greedy: only where the hypothetical outer main size is a plain function of the style:
+    # definite flex-basis, explicit min-size, no max-size, no padding/border, border-box, no aspect ratio
+    if d['wrap'] == 0 or d['min_m'] is not None or d['max_m'] is not None:
+        return None
+    hyp = []
+    for it in its:
+        plain = (it['basis'] is not None and it['min_m'] is not None and it['max_m'] is None and not any(it['pb']) and not it['content_box']
+                 and it['aspect'] is None)
+        if not plain:
+            return None
+        m0 = 0.0 if it['margin'][0] is None else it['margin'][0]
+        m1 = 0.0 if it['margin'][1] is None else it['margin'][1]
+        hyp.append(Fraction(max(it['basis'], it['min_m'], 0.0)) + Fraction(m0) + Fraction(m1))
+    pbm = d['pb'][0] + d['pb'][1] + d['pb'][2] + d['pb'][3]
+    avail = Fraction(max(d['main'], pbm)) - Fraction(pbm)
+    gap = Fraction(d['gap_m'])
+    nums = [d['main'], d['gap_m']] + d['pb'][:4] + [x for it in its for x in (it['basis'], it['min_m'], it['margin'][0] or 0.0, it['margin'][1] or 0.0)]
+    exact = all(_quarter(x) for x in nums)      # every partial sum is exactly representable: f32 arithmetic = exact arithmetic
+    if stats is not None:
+        stats['fit_greedy_containers'] = stats.get('fit_greedy_containers', 0) + 1
+        stats['fit_greedy_exact'] = stats.get('fit_greedy_exact', 0) + int(exact)
+        stats['fit_greedy_multi_line'] = stats.get('fit_greedy_multi_line', 0) + int(len(lines) > 1)
+    slack = Fraction(0) if exact else Fraction(1, 1000) * max(abs(avail), 1)
+    for k, l in enumerate(lines):
+        total = sum(hyp[i] for i in l) + gap * (len(l) - 1)
+        if len(l) >= 2 and total > avail + slack:
+            return ('line %d (children %d..%d) does not fit: hypothetical outer sizes + gaps = %s > available main size %s'
+                    % (k, l[0], l[-1], float(total), float(avail)))
+        if k + 1 < len(lines):
+            nxt = lines[k + 1][0]
+            if total + gap + hyp[nxt] <= avail - slack:
+                return ('line %d (children %d..%d) is not greedy: it could have taken child %d (%s + gap + %s <= %s)'
+                        % (k, l[0], l[-1], nxt, float(total), float(hyp[nxt]), float(avail)))
+    return None
+
+
+def k1_as_k2(c):
+    """A case of the K1 class written as a case of the K2 class (same tree: the K1 harness gives every child cross size 20,
+    align-self start, and a fixed measure (meas, 7) in main/cross order): lets the general model (Model/FlexContainer.v with
+    determine_flex_base_size of Model/FlexBase.v) be compared with the implementation on the K1 cases too."""
+    row = c[0] in (0, 2)
+    w = [c[0], 0, c[1], -1, -1, c[2], 1, c[3], 0, 0, 0, 0] + list(c[4:12]) + [c[12], 0, c[13]]
+    for i in range(c[13]):
+        it = c[14 + i * ITEM_INTS:14 + (i + 1) * ITEM_INTS]
+        meas = fl(it[18])
+        ctx = [0, 0, 0]
+        if meas != 0.0:
+            ctx = [1, it[18], fbits(7.0)] if row else [1, fbits(7.0), it[18]]
+        w += (list(it[0:4]) + [1, fbits(20.0)] + list(it[4:8]) + [0, 0, 0, 0, 0, 0] + [it[8], it[9]] + list(it[10:14]) + [0, 0, 0, 0]
+              + [it[14], it[15], it[16], it[17], 0, 0, 0, 0] + [0, 0, 0, 0] + ctx)
+    assert len(w) == W_HEAD + W_ITEM * c[13]
+    return w
+
+
+def k2_result_as_k1(r, n):
+    if len(r) != 2 + 8 * n:
+        return r
+    out = [r[0], r[1]]
+    for i in range(n):
+        out += [r[2 + 8 * i], r[2 + 8 * i + 2]]
+    return out
+
+
 def shape(c):
     d = decode(c)
     return '%s/%s/n=%d' % (DIRS[d['dir']], 'None' if d['jc'] < 0 else JUSTIFY[d['jc']], d['n'])
@@ -132,8 +292,14 @@ def run(rep, tier, seed, replay=None):
         'calculate_flex_item main axis) and Model/FlexRun.v (prefix: compute_constants, generate_anonymous_flex_items, '
         'determine_flex_base_size and compute_leaf_layout for the K class): tied to the Rust only by bit-exact correspondence',
         'theorems are over the exact instance XQ; the F32 run differs by accumulated rounding (oracle tolerance 1e-3)',
-        'K class: single-line containers of leaves with definite flex-basis or size, border-box, lengths only, no aspect ratio, '
-        'align-self start; wrap / nested content / percentages are covered by the oracle only'])
+        'hand models Model/FlexLines.v (collect_flex_lines), Model/FlexBase.v (compute_constants, generate_anonymous_flex_items, '
+        'determine_available_space, determine_flex_base_size), Model/FlexContainer.v (cross-axis steps, final_layout_pass): tied to the '
+        'Rust by the bit-exact correspondence K2 (children = leaves, via Model/Leaf.v compute_leaf_layout, itself tied by C19)',
+        'K1 class: single-line containers of leaves with definite flex-basis or size, border-box, lengths only, no aspect ratio, '
+        'align-self start.  K2 class: nowrap / wrap / wrap-reverse containers with a definite main size whose children are leaves '
+        '(lengths only; no baseline alignment, no relative insets, no scrollbars); cases with an "echo" measure function run with the '
+        'exact-key memo (hook) because the real cache key is lossy for such functions (known finding of C01/C17); '
+        'nested containers, percentages, indefinite main size, baselines are covered by the oracle only'])
     mine_changed = [k for k in changed if k.startswith('gen_flex:')]
     rep.cov['fingerprints_changed'] = mine_changed
     rc, out, binp, dt = build_harness('release')
@@ -149,6 +315,8 @@ def run(rep, tier, seed, replay=None):
         rc, out = vh(binp, ['c07', 'one'] + replay['case'], timeout=60)
     elif replay and 'oracle' in replay:
         oracle_replay = replay['oracle']
+        rc, out = vh(binp, ['c07', 'cases', seed, 0], timeout=120)
+    elif replay:
         rc, out = vh(binp, ['c07', 'cases', seed, 0], timeout=120)
     else:
         rc, out = vh(binp, ['c07', 'cases', seed, n], timeout=300)
@@ -204,6 +372,86 @@ def run(rep, tier, seed, replay=None):
     rep.cov['samples'].append({'theorem': 'C07_order_no_overlap : gap >= 0, margins >= 0 non-auto, inset = 0, sizes >= 0 -> for i < j: '
                                           'loc_i + size_i + margin_end_i + margin_start_j + gap <= loc_j (mirrored for *-reverse)'})
     rep.cov['samples'].append({'theorem': 'C07_loop_terminates : forall items gap M (any XQ values), resolve_flexible_lengths items gap M <> None'})
+    # ---------------------------------------------------------------- K2: multi-line containers, both axes
+    n2 = 1000 if tier == 'quick' else 20000
+    if mine_changed and tier == 'quick':
+        n2 = 4000
+    wcases, wimpl, wbad = [], [], []
+    if replay and 'wcase' in replay:
+        rc, out = vh(binp, ['c07', 'wone'] + replay['wcase'], timeout=60)
+    elif replay:
+        rc, out = vh(binp, ['c07', 'wcases', seed, 0], timeout=120)
+    else:
+        rc, out = vh(binp, ['c07', 'wcases', seed, n2], timeout=300)
+    try:
+        wcases, wimpl = parse_cr(out)
+    except RuntimeError as ex:
+        wcases, wimpl = [], []
+    if rc != 0 or not wcases:
+        rep.add_broken('correspondence', 'vh c07 wcases', 'harness failed: ' + out[-500:])
+        wcases, wimpl = [], []
+    for c in [c for c, a in zip(wcases, wimpl) if a == [-2]][:1]:
+        rep.add_violation('K2 case %s: the layout does not terminate (no result within the harness watchdog period)' % wshape(c),
+                          {'wcase': c, 'cmd': 'vh c07 wone ' + ' '.join(str(x) for x in c)})
+        rep.add_broken('correspondence', 'vh c07 wcases', 'implementation hangs on case %s' % c)
+    wpairs = [(c, a) for c, a in zip(wcases, wimpl) if a != [-2]]
+    wcases, wimpl = [p[0] for p in wpairs], [p[1] for p in wpairs]
+    wstruct = []
+    if wcases:
+        try:
+            with Lock('coq'):
+                rcm, outm, _ = coq_make(['Model/FlexWrapRun.vo'])
+            if rcm != 0:
+                raise RuntimeError(outm[-1500:])
+            ext = run_model('C07w', 'From TV Require Import Model.FlexWrapRun.', 'run_wrap_case_ext', wcases, scope='Z', elem='list Z')
+            wmodel = []
+            for e in ext:
+                if e and e[0] >= 0:
+                    wstruct.append(e[1:1 + e[0]])
+                    wmodel.append(e[1 + e[0]:])
+                else:
+                    wstruct.append([])
+                    wmodel.append(e)
+            wbad = diff_results(rep, 'multi-line flex container of leaves (whole API, both axes) vs Model.FlexContainer.compute_flexbox_layout over F32',
+                                wcases, wimpl, wmodel)
+        except RuntimeError as ex:
+            rep.add_broken('correspondence', 'model evaluation (K2)', str(ex)[-1500:])
+    # the K1 cases through the general model as well (determine_flex_base_size of Model/FlexBase.v instead of the K1 prefix)
+    if cases and not rep.broken:
+        try:
+            g = run_model('C07g', 'From TV Require Import Model.FlexWrapRun.', 'run_wrap_case', [k1_as_k2(c) for c in cases], scope='Z', elem='list Z')
+            gm = [k2_result_as_k1(r, c[13]) for r, c in zip(g, cases)]
+            diff_results(rep, 'K1 cases vs the general model Model.FlexContainer.compute_flexbox_layout (FlexBase.determine_flex_base_size) over F32',
+                         cases, impl, gm)
+            rep.cov['k1_through_general_model'] = len(cases)
+        except RuntimeError as ex:
+            rep.add_broken('correspondence', 'model evaluation (K1 through the general model)', str(ex)[-1500:])
+    whist = {}
+    for c, st in zip(wcases, wstruct):
+        d = wdecode(c)
+        for key in (WRAPS[d['wrap']], 'lines=%d' % min(len(st), 5) + ('+' if len(st) >= 5 else '')):
+            whist[key] = whist.get(key, 0) + 1
+    rep.cov['k2_cases'] = len(wcases)
+    rep.cov['k2_distinct'] = len(set(tuple(c) for c in wcases))
+    rep.cov['k2_multi_line'] = sum(1 for st in wstruct if len(st) > 1)
+    rep.cov['k2_lines_read_off_impl'] = sum(1 for c, a in zip(wcases, wimpl) if impl_lines(c, a) is not None and len(impl_lines(c, a)) > 1)
+    rep.cov['k2_input_distribution'] = whist
+    rep.cov['k2_rule'] = ('K2 cases = hand corpus (exact fit, overflow of a single item, zero-sized items on a full line, gap decisive, every '
+                          'align-content, the five flex-base-size cases, pb-floor) then one PRNG stream: direction x nowrap/wrap/wrap-reverse, '
+                          'justify-content, align-content, align-items, definite main size (1/4 of the cases: exactly the sum of the first k plain '
+                          'items), definite|auto cross size, min/max main size, padding/border, both gaps; 1..8 leaf children (basis | size | '
+                          'aspect ratio + cross size | measured content | nothing; min/max both axes, margins incl. auto on both axes, '
+                          'padding/border, overflow, content-box, align-self, fixed / echo measure). Compared bit for bit: container size, every '
+                          "child's unrounded location and size on both axes and its four resolved margins (line membership is visible in the "
+                          'cross location)')
+    if wcases:
+        rep.cov['samples'].append({'k2_case': wcases[0], 'impl': wimpl[0]})
+        rep.cov['samples'].append({'k2_case': wcases[-1], 'impl': wimpl[-1]})
+    rep.cov['samples'].append({'theorem': 'C07_lines_partition : concat (collect_flex_lines ..) = items /\\ every line non-empty (any Num)'})
+    rep.cov['samples'].append({'theorem': 'C07_lines_fit / C07_lines_greedy : a line of >= 2 items has sum hyp_outer + gaps <= available; '
+                                          'available < sum + gaps + gap + hyp_outer(first item of the next line)'})
+    rep.cov['samples'].append({'theorem': 'C07_hyp_is_clamped_basis : base_fin, pb_class (no max, or padding+border <= max, or <= min) -> '
+                                          'exh_prem (determine_flex_base_size ..); C07_hyp_is_clamped_basis_refuted outside pb_class'})
     # ---------------------------------------------------------------- known findings: the refutation witnesses must still fail on the implementation
     rc, out = vh(binp, ['c07', 'one'] + PBFLOOR_WITNESS, timeout=60)
     try:
@@ -270,3 +518,21 @@ def run(rep, tier, seed, replay=None):
         if v and v[1] is None and (c, a) not in [(x, y) for x, y, _ in bad] and nk2 < 2 and not rep.violations:
             nk2 += 1
             rep.add_violation('K case %s: %s' % (shape(c), v[0]), {'case': c, 'impl': a, 'cmd': 'vh c07 one ' + ' '.join(str(x) for x in c)})
+    # K2: a disagreement on a concrete input is a VIOLATION only when the line laws fail on the implementation's own result
+    nb2 = 0
+    for c, a, b in wbad:
+        v = impl_violates_wrap(c, a)
+        if v and nb2 < 3:
+            nb2 += 1
+            rep.add_violation('K2 case %s: %s' % (wshape(c), v), {'wcase': c, 'impl': a, 'model': b, 'cmd': 'vh c07 wone ' + ' '.join(str(x) for x in c)})
+    nw = 0
+    wstats = {}
+    wbadset = set(tuple(x) for x, _, _ in wbad)
+    for c, a in zip(wcases, wimpl):
+        if tuple(c) in wbadset:
+            continue
+        v = impl_violates_wrap(c, a, wstats)
+        if v and nw < 2:
+            nw += 1
+            rep.add_violation('K2 case %s: %s' % (wshape(c), v), {'wcase': c, 'impl': a, 'cmd': 'vh c07 wone ' + ' '.join(str(x) for x in c)})
+    rep.cov['k2_impl_oracle'] = wstats
